@@ -1184,7 +1184,9 @@ func randDoc(rng *rand.Rand) dDoc {
 		case 2:
 			d.Fields[t] = append(subsetOf(rng, all), "id")
 		case 3:
-			d.Fields[t] = append(subsetOf(rng, all), "zz")
+			// a name the type does not have: a plain one, or one made of the type's own names and commas
+			unknown := []string{"zz", "zz", all[0] + "," + all[len(all)-1], "," + all[0] + ",", all[len(all)/2] + ",zz"}[rng.Intn(5)]
+			d.Fields[t] = append(subsetOf(rng, all), unknown)
 		case 4:
 			s := subsetOf(rng, all)
 			if len(s) > 0 {
